@@ -116,6 +116,78 @@ def feasible(st, eqs=(), ges=()):
 def run(prog, chk, tier):
     roundtrip(prog, chk)
     run_tables(prog, chk, tier)
+    list_getters(prog, chk)
+
+
+# ------------------------------------------------------------------------------------------------ "exposes exactly the encoded fields": list queries
+
+UA = A + "error::UnknownAttributes"
+
+
+def list_getters(prog, chk, rule="list-query"):
+    """UNKNOWN-ATTRIBUTES answers `has_attribute(t)` from the decoded list: over a list of k symbolic types (k = 0..2, in *any*
+    order - the decoder keeps wire order) and a symbolic type asked for, every return state must be the membership the path
+    decided.  An answer that rests on an order of the list (std's binary_search) is accepted only when the order is a decided
+    fact of the path; otherwise it is reported together with the writers of the list that do not sort it."""
+    from rules.agent_e2 import Run, bool_of
+    from absint.models_content import known_eq
+    key = UA + "::has_attribute"
+    body = prog.bodies.get(key)
+    if body is None:
+        chk.ob(rule, "UnknownAttributes::has_attribute exists", False, detail="function not found")
+        return
+    arg = {body.locals[i]["name"]: i for i in range(1, body.arg_count + 1)}
+    qi = [i for n_, i in arg.items() if n_ != "self"]
+    n = 0
+    for k in (0, 1, 2):
+        tvars = [Lin.var("t%d" % i) for i in range(k)]
+        q = Lin.var("asked")
+
+        def setup(run, st, tvars=tvars, q=q):
+            for v in tvars + [q]:
+                st.sys.add_range(v, 0, 65535)
+                st.cells["ghost:q:" + next(iter(v.t))] = Num(v)
+            lst = Seq(Lin.const(len(tvars)), None, Struct({i: Struct({0: Num(v)}) for i, v in enumerate(tvars)}, tag="elems") if tvars else EMPTY)
+            if not run.self_cell:
+                raise FailClosed("self region not found")
+            st.cells[run.self_cell] = Struct({0: lst})
+            st.cells[run.it.cell_of(run.fr, qi[0])] = Struct({0: Num(q)})
+        r = Run(prog, key, track_content=True, bool_vars=False, max_parts=4000, setup=setup)
+        if r.error or not r.results:
+            chk.fail(rule, "UnknownAttributes::has_attribute|analysis|%d listed" % k, body.loc(), r.error or "no return state")
+            continue
+        for st, ret in r.results:
+            if not st.sys.feasible():
+                continue
+            n += 1
+            tr = r.trace(st)
+            member, undecided = False, False
+            for tv in tvars:
+                e_ = known_eq(st, Num(tv), Num(q))
+                if e_ is True:
+                    member = True
+                    break
+                if e_ is None:
+                    undecided = True
+            problems = []
+            unordered = [e for e in tr if e[0] in ("binary-search-unordered", "binary-search-unknown-list")]
+            ans = bool_of(st, ret)
+            if unordered:
+                writers = sorted({re.sub(r"::\{closure#\d+\}", "", a["body"]) for a in e1.field_accesses(prog, UA + "::UnknownAttributes", "attributes")
+                                  if a["how"] in ("write", "refmut")} | {c_["body"] for c_ in e1.construct_sites(prog, UA)})
+                writers = [w for w in writers if " as std::clone::Clone>" not in w and w in prog.bodies]
+                unsorted_writers = [w for w in writers if not any(re.search(r"::(sort\w*|binary_search\w*|is_sorted\w*)$", c_) for c_ in prog.ext_callees(prog.reach([w], follow_callbacks=False)))]
+                problems.append("the answer rests on the list being in ascending order, which the path does not know; not established by: %s"
+                                % (", ".join(w.split("::", 2)[-1] for w in unsorted_writers) or "(every writer sorts - order assumed, not proved)"))
+                if not unsorted_writers:
+                    problems = []          # assume-guarantee: every writer of the list sorts it (checked by reachability only)
+            elif not member and undecided:
+                problems.append("answers %r without deciding whether a listed type is the one asked for" % (ans,))
+            elif ans is not member:
+                problems.append("answers %r where membership is %r" % (ans, member))
+            chk.ob(rule, "UNKNOWN-ATTRIBUTES::has_attribute|%d listed|%s" % (k, "member" if member else "not a member"), not problems, body.loc(),
+                   detail="; ".join(problems), how="E2 return state over a short symbolic list (any order)")
+    chk.floor(rule + "-rows", n, 4)
 
 
 def run_tables(prog, chk, tier):
